@@ -12,6 +12,7 @@ package kernel
 import (
 	"fmt"
 	"testing"
+	"time"
 
 	"github.com/MixinNetwork/mixin/common"
 	"github.com/MixinNetwork/mixin/config"
@@ -340,5 +341,90 @@ func TestVP_C10_histories(t *testing.T) {
 			}
 			vpC10Judge(c, h, recs, node, q, fail)
 		}
+	})
+}
+
+// TestVP_C10_reload: the threshold and the key vector a certificate is checked
+// against must come from the same membership also on a long-lived node: one
+// Node and one Chain object answer a question, then a membership record that
+// precedes the question's time arrives (finalization order is not timestamp
+// order) and the node reloads its membership the way reloadConsensusState
+// does; the same question on the same objects is judged again.
+func TestVP_C10_reload(t *testing.T) {
+	c := kit.New(t, "C10", "rapid: G-membership lifecycle histories as in TestVP_C10_histories; a node is loaded (LoadConsensusNodes on a record store) with the history minus one drawn non-genesis record, a chain object of an accepted node answers ConsensusKeys(round, q) for q after that record's time, the missing record is added to the store and the same Node runs LoadConsensusNodes again; oracle: the answers of the SAME node and chain objects after the reload satisfy the overlap rule 3(2T-n) > n (T<=n), and equal those of freshly built objects over the full history; non-trivial = the late record changes n or T at q; distinct by (n,T before, n,T after)")
+	c.Require("late-record-changes-n-or-T", "late-remove", "late-accept")
+	kit.SetChecks(kit.N(1200, 40000))
+	rapid.Check(t, func(rt *rapid.T) {
+		h := vpKMGenHist(rt, vpKMOpts{Epoch: vpKMEpochDefault, Network: vpKMNetwork("c10r"), MinGenesis: 7, MaxGenesis: 16, MaxOps: 10, AllowBelow7: false, ValidBias: 80})
+		recs := h.Sorted()
+		var late []int
+		for i, r := range recs {
+			if r.Timestamp > h.Epoch {
+				late = append(late, i)
+			}
+		}
+		if len(late) == 0 {
+			rt.Skip("no lifecycle record")
+		}
+		li := late[rapid.IntRange(0, len(late)-1).Draw(rt, "late")]
+		lateRec := recs[li]
+		st := &vpKMStubStore{}
+		for i, r := range recs {
+			if i != li {
+				st.nodes = append(st.nodes, &common.Node{Signer: r.Signer, Payee: r.Payee, State: r.State, Transaction: r.Transaction, Timestamp: r.Timestamp})
+			}
+		}
+		node := &Node{Epoch: h.Epoch, networkId: h.Network, genesisNodesMap: h.Genesis, persistStore: st}
+		if err := node.LoadConsensusNodes(); err != nil {
+			rt.Fatalf("load: %v", err)
+		}
+		q := lateRec.Timestamp + rapid.SampledFrom([]uint64{1, uint64(31 * time.Second), uint64(13 * time.Hour), uint64(25 * time.Hour), uint64(40 * 24 * time.Hour)}).Draw(rt, "after")
+		// a genesis node that is accepted at q in the full history, if any
+		full := vpKMNewNode(h, h.Records, nil)
+		acc := full.NodesListWithoutState(q, true)
+		if len(acc) == 0 {
+			rt.Skip("nobody accepted")
+		}
+		id := acc[rapid.IntRange(0, len(acc)-1).Draw(rt, "chain")].IdForNetwork
+		if id == lateRec.IdForNetwork {
+			rt.Skip("the chain of the late record's own node")
+		}
+		chain := vpKMChain(node, id, nil)
+		round := uint64(rapid.IntRange(0, 1).Draw(rt, "round"))
+		_, k1 := chain.ConsensusKeys(round, q)
+		T1 := node.ConsensusThreshold(q, true)
+		// the record arrives, the node reloads
+		st.nodes = append(st.nodes, &common.Node{Signer: lateRec.Signer, Payee: lateRec.Payee, State: lateRec.State, Transaction: lateRec.Transaction, Timestamp: lateRec.Timestamp})
+		if err := node.LoadConsensusNodes(); err != nil {
+			rt.Fatalf("reload: %v", err)
+		}
+		ids2, k2 := chain.ConsensusKeys(round, q)
+		T2 := node.ConsensusThreshold(q, true)
+		fids, fk := vpKMChain(full, id, nil).ConsensusKeys(round, q)
+		fT := full.ConsensusThreshold(q, true)
+		n := len(k2)
+		if T2 <= n && 3*(2*T2-n) <= n {
+			rt.Fatalf("after the reload the same node checks certificates at epoch+%d (round %d) against n=%d keys with T=%d: 3(2T-n)=%d <= n (before the late %s record: n=%d T=%d; fresh objects: n=%d T=%d)\nops=%v", int64(q-h.Epoch), round, n, T2, 3*(2*T2-n), lateRec.State, len(k1), T1, len(fk), fT, h.Ops)
+		}
+		if T2 != fT || len(k2) != len(fk) {
+			rt.Fatalf("after the reload the node answers n=%d T=%d at epoch+%d, freshly built objects over the same records answer n=%d T=%d (late %s record)\nops=%v", len(k2), T2, int64(q-h.Epoch), len(fk), fT, lateRec.State, h.Ops)
+		}
+		for i := range ids2 {
+			if ids2[i] != fids[i] || *k2[i] != *fk[i] {
+				rt.Fatalf("after the reload key %d of the vector differs from the one freshly built objects give", i)
+			}
+		}
+		classes := []string{}
+		changed := len(k1) != len(k2) || T1 != T2
+		if changed {
+			classes = append(classes, "late-record-changes-n-or-T")
+		}
+		switch lateRec.State {
+		case common.NodeStateRemoved:
+			classes = append(classes, "late-remove")
+		case common.NodeStateAccepted:
+			classes = append(classes, "late-accept")
+		}
+		c.Case(fmt.Sprintf("%d/%d->%d/%d r%d", len(k1), T1, len(k2), T2, round), changed, classes...)
 	})
 }
